@@ -1,16 +1,20 @@
 (* C19 — values that do not fit the binary format are rejected, never wrapped; debug
    and release builds agree.  Property theorems; proofs are in Proofs*.v.
 
-   The property as stated is FALSE of the code (and of its faithful model): the
-   `_refuted` theorems exhibit boundary witnesses, replayed against the real
-   compiler by the harness on every run.  The companion theorems give the exact
-   extent of the failure:
-     * a site written through a saturating cast is faithful iff the value fits
-       (so the failing inputs of those sites are exactly the non-fitting values);
-     * the two profiles differ only where a narrow `+`/`-` overflows, and then the
-       debug build panics (never emits), the release build wraps;
-     * outside these two classes (every cast fits, the debug build does not
-       panic) an emitted font is faithful, for sources of any size. *)
+   State of the code the model describes: /repo with the C19 repairs
+   (work/patches/c19-*.diff).  After them
+     * advance widths, outline coordinates, successive coordinate differences, component
+       offsets, the number of points of a glyph, the top side bearing, composite point /
+       contour totals and the glyph count are CHECKED: a value that does not fit ends the
+       build (theorems glyf_outline_*, font_checked_sites_reject);
+     * no narrow `+`/`-` can overflow any more except the u32 sums of a composite with
+       more than 65536 components (composite_totals_u32_refuted), so the two profiles
+       agree on every other source (font_profiles_agree_bounded);
+     * the sites left as known findings still saturate: composite boxes, kerning values,
+       anchor coordinates, hhea line metrics, vertical origin, advance height, variation
+       deltas.  For them the property is FALSE of the code and of the model
+       (`_refuted` theorems, witnesses replayed by the harness); an emitted font is
+       faithful exactly when those values fit (font_faithful_when_fits). *)
 From Coq Require Import List ZArith QArith Qround Qabs Bool Lia.
 From FV.C19 Require Import Model ProofsSites Spec ProofsGlyph ProofsFont Tie.
 Import ListNotations.
@@ -89,21 +93,36 @@ Print Assumptions narrow_arith_profiles_agree_iff.
 
 Example narrow_arith_witness :
   sub_i16 Debug 20000 (-20000) = Panic /\ sub_i16 Release 20000 (-20000) = Emit (-25536) /\
-  sub_i16 Debug 800 (-32000) = Panic /\ sub_i16 Release 800 (-32000) = Emit (-32736) /\
-  width_class Debug 0 = Panic /\ width_class Release 0 = Reject /\ width_class Debug 5 = Emit 5.
+  sub_i16 Debug 800 (-32000) = Panic /\ sub_i16 Release 800 (-32000) = Emit (-32736).
 Proof. repeat split; reflexivity. Qed.
 
 (* checked conversions (u16::try_from / try_into: composite totals, number of long
    metrics, glyph count): a value is emitted unchanged or not at all, in both profiles. *)
 Theorem checked_site_never_wraps : forall z v : Z,
   (try_u16 z = Emit v -> v = z /\ fits_u16 z = true) /\
+  (try_i16 z = Emit v -> v = z /\ fits_i16 z = true) /\
   (unwrap_u16 z = Emit v -> v = z /\ fits_u16 z = true) /\
-  (fits_u16 z = false -> try_u16 z = Reject /\ unwrap_u16 z = Panic).
+  (fits_u16 z = false -> try_u16 z = Reject /\ unwrap_u16 z = Panic) /\
+  (fits_i16 z = false -> try_i16 z = Reject).
 Proof.
-  intros z v. split; [apply try_u16_emit|]. split; [apply unwrap_u16_emit|].
-  intro F. unfold try_u16, unwrap_u16. now rewrite F.
+  intros z v. split; [apply try_u16_emit|]. split; [apply try_i16_emit|]. split; [apply unwrap_u16_emit|].
+  split; intro F; unfold try_u16, try_i16, unwrap_u16; now rewrite F.
 Qed.
 Print Assumptions checked_site_never_wraps.
+
+(* WidthClass::try_from after the repair: total, the same in both profiles, a class for
+   1..9 and an error for everything else (0 included) *)
+Theorem width_class_checked : forall (p : profile) (v : Z),
+  width_class p v = (if (1 <=? v) && (v <=? 9) then Emit v else Reject) /\
+  width_class Debug v = width_class Release v.
+Proof.
+  intros p v. split; [|reflexivity]. unfold width_class.
+  assert ((v - 1 <? 9) = (v <=? 9)) as E by lia. now rewrite E.
+Qed.
+Print Assumptions width_class_checked.
+
+Example width_class_witness : width_class Debug 0 = Reject /\ width_class Release 0 = Reject /\ width_class Debug 5 = Emit 5.
+Proof. repeat split; reflexivity. Qed.
 
 (* variation deltas (HVAR advance, gvar point and component offset): a consumer at the
    second master computes that master's value exactly when the difference fits i16 *)
@@ -118,113 +137,128 @@ Proof. split; reflexivity. Qed.
 (* ================================================================================== *)
 (* 2. glyf entries                                                                       *)
 
-(* Outlines of any number of contours and points.  If every coordinate fits, the
-   contours are non-empty and there are at most 65535 points, then (a) whatever a debug
-   build writes decodes (running sums, as a rasteriser does) to exactly the rounded
-   source points in emission order, with exact contour ends and box; and (b) if moreover
-   no successive difference overflows, every profile writes that same entry. *)
-Theorem glyf_points_round_trip : forall cs : list contour,
-  outline_okb cs = true ->
-  (forall o, simple_glyph Debug cs = Emit o -> outline_faithful cs o) /\
-  (zlen cs < 32767 -> outline_arithb cs = true ->
-     forall p, exists o, simple_glyph p cs = Emit o /\ simple_glyph Debug cs = Emit o /\ outline_faithful cs o).
+(* Outlines of any number of contours and points, in either profile: whatever is written
+   decodes (running sums, as a rasteriser does) to exactly the rounded source points in
+   emission order, with exact contour ends and box.  No side condition: the coordinates,
+   their successive differences and the point count are checked before anything is
+   written. *)
+Theorem glyf_outline_never_wrapped : forall (p : profile) (cs : list contour) (o : glyf_out),
+  simple_glyph p cs = Emit o -> outline_faithful cs o.
+Proof. exact simple_glyph_emit_faithful. Qed.
+Print Assumptions glyf_outline_never_wrapped.
+
+(* An outline is written exactly when glyf can hold it (every coordinate and every step
+   between successive points fits i16, no empty contour, at most 65535 points); otherwise
+   the build ends.  (32767 contours or more stop in an assertion of write-fonts.) *)
+Theorem glyf_outline_emitted_iff : forall (p : profile) (cs : list contour),
+  cs <> [] -> zlen cs < 32767 ->
+  (emitted (simple_glyph p cs) = true <-> outline_checksb cs = true) /\
+  (outline_checksb cs = true -> simple_glyph p cs = Emit (canonical_simple cs)).
 Proof.
-  intros cs Hok. split.
-  - intros o H. now apply outline_debug_faithful.
-  - intros Hn Ha p. now apply outline_fits_faithful.
+  intros p cs Hne Hn. split.
+  - split.
+    + intro E. destruct (outline_checksb cs) eqn:K; [reflexivity|].
+      rewrite (simple_glyph_unfit_rejected p cs Hne K) in E. discriminate.
+    + intro K. now rewrite (simple_glyph_fit_emitted p cs Hne K Hn).
+  - intro K. now apply simple_glyph_fit_emitted.
 Qed.
-Print Assumptions glyf_points_round_trip.
+Print Assumptions glyf_outline_emitted_iff.
 
-Example glyf_round_trip_nonvacuous :
-  let cs := [[(-16383, 0); (16384, 0); (16384, 100); (-16383, 100)]]%Q in
-  outline_okb cs = true /\ outline_arithb cs = true /\ zlen cs < 32767 /\
-  omap dump_glyf (simple_glyph Release cs) =
-    Emit [0; 1; 3; 4; -16383; 0; -16383; 100; 16384; 100; 16384; 0; -16383; 0; 16384; 100].
-Proof. cbv zeta. repeat split; try reflexivity. Qed.
+Example glyf_outline_nonvacuous :
+  let ok := [[(-16383, 0); (16384, 0); (16384, 100); (-16383, 100)]]%Q in
+  let step := [[(-20000, 0); (20000, 0); (20000, 100); (-20000, 100)]]%Q in
+  let coord := [[(39900, 0); (40000, 0); (40000, 100); (39900, 100)]]%Q in
+  outline_checksb ok = true /\
+  omap dump_glyf (simple_glyph Release ok) =
+    Emit [0; 1; 3; 4; -16383; 0; -16383; 100; 16384; 100; 16384; 0; -16383; 0; 16384; 100] /\
+  simple_glyph Debug step = Reject /\ simple_glyph Release step = Reject /\
+  simple_glyph Debug coord = Reject /\ simple_glyph Release coord = Reject /\
+  emitted (simple_glyph Release [zigzag 65535]) = true /\ simple_glyph Release [zigzag 65536] = Reject /\
+  simple_glyph Debug [zigzag 65536] = Reject.
+Proof. cbv zeta. repeat split; vm_compute; reflexivity. Qed.
 
-(* The release build wraps: both coordinates fit, their difference does not; the font
-   is written and decodes to a point 65536 units away (the debug build panics). *)
-Theorem glyf_release_wraps_refuted : exists (cs : list contour) (so : simple_out),
-  outline_okb cs = true /\
-  simple_glyph Release cs = Emit (GSimple so) /\
-  decode_simple so <> exact_points cs /\
-  simple_glyph Debug cs = Panic.
-Proof.
-  exists [[(-20000, 0); (20000, 0); (20000, 100); (-20000, 100)]]%Q.
-  eexists. split; [reflexivity|]. split; [vm_compute; reflexivity|]. split; [|reflexivity].
-  vm_compute. discriminate.
-Qed.
-Print Assumptions glyf_release_wraps_refuted.
+(* the two profiles write the same entry for every outline *)
+Theorem glyf_profiles_agree : forall cs : list contour, simple_glyph Debug cs = simple_glyph Release cs.
+Proof. exact simple_glyph_profile_indep. Qed.
+Print Assumptions glyf_profiles_agree.
 
-(* exact extent of the disagreement on one outline glyph *)
-Theorem glyf_profiles_agree_iff : forall cs : list contour, cs <> [] -> zlen cs < 32767 ->
-  (simple_glyph Debug cs = simple_glyph Release cs <-> outline_arithb cs = true).
-Proof. exact simple_glyph_agree_iff. Qed.
-Print Assumptions glyf_profiles_agree_iff.
-
-(* Components.  A composite none of whose 2x2 entries leaves [-2, 2] is kept and each
-   record is within a quantum of the source (offsets exact when they fit).  A composite
-   with an entry outside is replaced by an outline, and that outline consists exactly of
-   the referenced contours under the unquantised source transforms (reversed when
-   mirrored): the fallback preserves the shape whatever the size of the scale. *)
+(* Components.  A composite none of whose 2x2 entries leaves [-2, 2] is kept when its
+   offsets fit i16 (rejected otherwise) and each record is then within a quantum of the
+   source with exact offsets.  A composite with an entry outside is replaced by an
+   outline, and that outline consists exactly of the referenced contours under the
+   unquantised source transforms (reversed when mirrored): the fallback preserves the
+   shape whatever the size of the scale; what is written for it is faithful. *)
 Theorem component_fallback_preserves_shape : forall glyphs a h (comps : list (Z * affine)),
   comps <> [] ->
   (decomposes comps = false ->
-     forall p, exists outs b, build_glyph p glyphs (SrcComposite a h comps) = Emit (GComposite outs b) /\
-       (forallb offset_fitsb comps = true -> Forall2 comp_faithful comps outs)) /\
+     forall p,
+       (forallb offset_fitsb comps = false -> build_glyph p glyphs (SrcComposite a h comps) = Reject) /\
+       (forallb offset_fitsb comps = true ->
+          exists outs b, build_glyph p glyphs (SrcComposite a h comps) = Emit (GComposite outs b) /\
+                         Forall2 comp_faithful comps outs)) /\
   (decomposes comps = true ->
      (forall p, build_glyph p glyphs (SrcComposite a h comps) = simple_glyph p (decompose glyphs comps)) /\
      (forall c, In c (decompose glyphs comps) <->
         exists ct base, In ct comps /\ In base (base_contours glyphs (fst ct)) /\
           (c = map (apply_aff (snd ct)) base \/ c = emit_order (map (apply_aff (snd ct)) base)) /\
           c = transform_contour (snd ct) base) /\
-     (forall o, outline_okb (decompose glyphs comps) = true ->
-        build_glyph Debug glyphs (SrcComposite a h comps) = Emit o ->
+     (forall p o, build_glyph p glyphs (SrcComposite a h comps) = Emit o ->
         outline_faithful (decompose glyphs comps) o)).
 Proof.
   intros glyphs a h comps Hne. destruct comps as [|ct0 comps]; [congruence|]. set (l := ct0 :: comps) in *.
   assert (forall p, build_glyph p glyphs (SrcComposite a h l) =
-            if decomposes l then simple_glyph p (decompose glyphs l) else Emit (emit_composite glyphs l)) as U
-    by (intro; reflexivity).
+            if decomposes l then simple_glyph p (decompose glyphs l)
+            else if forallb offset_fitsb l then Emit (emit_composite glyphs l) else Reject) as U
+    by (intro; apply build_glyph_composite).
   split.
-  - intros D p. rewrite U, D. unfold emit_composite. eexists. eexists. split; [reflexivity|].
-    intro Hoff. assert (forall ct, In ct l -> overflows_2x2 (snd ct) = false) as K
-      by (intros; eapply decomposes_false; eauto).
-    rewrite forallb_forall in Hoff. clear U D Hne.
-    induction l as [|ct l' IH]; cbn [map]; constructor.
-    + destruct ct as [gid t]. apply emit_component_faithful; [apply (K (gid, t)); now left|apply Hoff; now left].
-    + apply IH; intros; [apply Hoff|apply K]; now right.
+  - intros D p. rewrite U, D. split; intro Hoff; rewrite Hoff; [reflexivity|].
+    unfold emit_composite. eexists. eexists. split; [reflexivity|]. now apply kept_components_faithful.
   - intro D. split; [intro p; now rewrite U, D|]. split.
     + intro c. rewrite decompose_in. split.
       * intros [ct [base [H1 [H2 H3]]]]. exists ct, base. repeat split; try assumption.
         subst c. apply transform_contour_shape.
       * intros [ct [base [H1 [H2 [_ H3]]]]]. exists ct, base. auto.
-    + intros o Hok H. rewrite U, D in H. now apply outline_debug_faithful.
+    + intros p o H. rewrite U, D in H. eapply simple_glyph_emit_faithful; eauto.
 Qed.
 Print Assumptions component_fallback_preserves_shape.
 
 Example component_fallback_nonvacuous :
   let glyphs := [notdef_src; SrcSimple 600 1000 [unit100]] in
   let comps := [(1, ((9 # 4), 0, 0, 1, 0, 0)%Q)] in
-  decomposes comps = true /\ outline_okb (decompose glyphs comps) = true /\
+  decomposes comps = true /\
   omap dump_glyf (build_glyph Debug glyphs (SrcComposite 600 1000 comps)) =
-    Emit [0; 1; 3; 4; 0; 0; 0; 100; 225; 100; 225; 0; 0; 0; 225; 100].
+    Emit [0; 1; 3; 4; 0; 0; 0; 100; 225; 100; 225; 0; 0; 0; 225; 100] /\
+  build_glyph Release glyphs (SrcComposite 600 1000 [(1, (1, 0, 0, 1, 40000, 0)%Q)]) = Reject.
 Proof. cbv zeta. repeat split; reflexivity. Qed.
 
-(* --flatten-components multiplies nested transforms after the range test has run: a
-   glyph all of whose SOURCE entries are within range ends up with the entry 2.25
-   written as 0x7fff (1.99994) — kept as a composite, not within a quantum. *)
+(* --flatten-components multiplies nested transforms.  Before /repo 101951c the range
+   test ran only before flattening: a glyph all of whose SOURCE entries are within range
+   ended up with the entry 2.25 written as 0x7fff (1.99994) — kept as a composite, not
+   within a quantum (build_flattened; key glyph.rs:flatten_glyph.transform:saturates).
+   With the range test repeated after flattening (build_flattened_repaired, the code as
+   it is) the same glyph is decomposed and what is written is faithful. *)
 Theorem flattened_scale_refuted : exists (glyphs : list glyph_src) (l : list nested) outs b,
   forallb (fun n => forallb (fun t => negb (overflows_2x2 t)) (nested_transforms n)) l = true /\
   (forall p, build_flattened p glyphs l = Emit (GComposite outs b)) /\
-  ~ Forall2 comp_faithful (flatten_glyph l) outs.
+  ~ Forall2 comp_faithful (flatten_glyph l) outs /\
+  (forall p o, build_flattened_repaired p glyphs l = Emit o ->
+               outline_faithful (decompose glyphs (flatten_glyph l)) o) /\
+  emitted (build_flattened_repaired Release glyphs l) = true.
 Proof.
   exists [notdef_src; SrcSimple 600 1000 [unit100]].
   exists [NNode ((3 # 2), 0, 0, (3 # 2), 0, 0)%Q [(1, ((3 # 2), 0, 0, (3 # 2), 0, 0)%Q)]].
-  eexists. eexists. split; [reflexivity|]. split; [intro p; vm_compute; reflexivity|].
-  intro H. inversion H as [|x y lx ly Hxy Hrest]; subst. clear H Hrest.
-  unfold comp_faithful in Hxy. cbn in Hxy. destruct Hxy as [_ [_ [_ [K _]]]].
-  unfold q_close in K. vm_compute in K. apply K. reflexivity.
+  eexists. eexists. split; [reflexivity|]. split; [intro p; vm_compute; reflexivity|]. split.
+  - intro H. inversion H as [|x y lx ly Hxy Hrest]; subst. clear H Hrest.
+    unfold comp_faithful in Hxy. cbn in Hxy. destruct Hxy as [_ [_ [_ [K _]]]].
+    unfold q_close in K. vm_compute in K. apply K. reflexivity.
+  - split; [|vm_compute; reflexivity].
+    intros p o H.
+    lazymatch type of H with
+    | build_flattened_repaired _ ?G ?L = _ =>
+        assert (build_flattened_repaired p G L = simple_glyph p (decompose G (flatten_glyph L))) as E
+          by reflexivity
+    end.
+    rewrite E in H. eapply simple_glyph_emit_faithful; eauto.
 Qed.
 Print Assumptions flattened_scale_refuted.
 
@@ -240,7 +274,8 @@ Proof. exact composite_limits_exact. Qed.
 Print Assumptions composite_totals_exact_or_rejected.
 
 (* the bound is needed: 65538 components of a 65535-point glyph overflow the u32 sum
-   itself; the release build then reports 65534 composite points, the debug build panics *)
+   itself; the release build then reports 65534 composite points, the debug build panics.
+   This is the one narrow arithmetic step left that can overflow. *)
 Theorem composite_totals_u32_refuted : exists l : list Z,
   Forall (fun x => 0 <= x <= 65535) l /\ zlen l = 65538 /\
   (s <- sum_u32 Release 0 l ;; try_u16 s) = Emit 65534 /\ sum_u32 Debug 0 l = Panic /\
@@ -255,27 +290,66 @@ Print Assumptions composite_totals_u32_refuted.
 (* ================================================================================== *)
 (* 3. whole fonts (any number of glyphs, contours, points, components, pairs, anchors)   *)
 
-(* Profiles: whenever the debug build does not panic, the release build produces
-   exactly the same outcome (the same font, or the same rejection). *)
+(* Profiles: whenever the debug build does not panic, the release build produces exactly
+   the same outcome (the same font, or the same rejection) ... *)
 Theorem font_profiles_agree : forall s : src,
   build Debug s <> Panic -> build Release s = build Debug s.
 Proof. intros s H. destruct (debug_refines s) as [E|E]; [congruence|now symmetry]. Qed.
 Print Assumptions font_profiles_agree.
 
-(* Never wrapped, outside the two known classes: if every value written through a cast
-   fits its field, a font emitted by the debug build is faithful (advances, outlines,
-   component records or their decomposition, kerning, anchors, line metrics, glyph count,
-   vertical metrics), and so is a font emitted by the release build unless the debug
-   build panics on that source. *)
-Theorem font_faithful_when_fits : forall (s : src) (f : font),
-  wfb s = true -> casts_fitb s = true ->
-  (build Debug s = Emit f -> faithful s f) /\
-  (build Release s = Emit f -> build Debug s <> Panic -> faithful s f).
-Proof.
-  intros s f _ Hc. split.
-  - now apply font_faithful_debug.
-  - intros R D. apply font_faithful_debug; [exact Hc|]. rewrite <- R. symmetry. now apply font_profiles_agree.
-Qed.
+(* ... and when no composite has more than 65536 components the two profiles produce the
+   same outcome outright, whatever the values in the source. *)
+Theorem font_profiles_agree_bounded : forall s : src,
+  forallb comps_boundedb (s_glyphs s) = true -> build Debug s = build Release s.
+Proof. exact build_profile_indep. Qed.
+Print Assumptions font_profiles_agree_bounded.
+
+(* Checked sites: a font is emitted only if every advance width fits u16, every outline
+   (source or decomposed) passes the glyf checks, every kept component offset fits i16,
+   there are at most 65535 glyphs and every top side bearing fits i16.  So a source with
+   a value of one of these kinds that does not fit is never turned into a font, by either
+   profile. *)
+Theorem font_checked_sites_reject : forall (p : profile) (s : src) (f : font),
+  build p s = Emit f ->
+  forallb (glyph_checksb (s_glyphs s)) (s_glyphs s) = true /\
+  forallb (fun g => fits_u16 (ot_round (g_adv g))) (s_glyphs s) = true /\
+  zlen (s_glyphs s) <= 65535 /\
+  match s_vert s with
+  | None => True
+  | Some origin => forallb (fun o => fits_i16 (ot_round_i16 origin - glyf_ymax o)) (f_glyf f) = true
+  end.
+Proof. exact font_emit_checks. Qed.
+Print Assumptions font_checked_sites_reject.
+
+Theorem font_checked_limits_reject : forall (p : profile) (s : src),
+  65535 < zlen (s_glyphs s) -> emitted (build p s) = false.
+Proof. exact too_many_glyphs_rejected. Qed.
+Print Assumptions font_checked_limits_reject.
+
+Example font_checked_sites_nonvacuous :
+  (* advance 70000; coordinate 40000; step -20000 -> 20000; component offset 40000;
+     top side bearing 800 - (-32000); 65536 glyphs: every profile refuses *)
+  let one g v := mk_src [notdef_src; g] 800 (-200) 0 v [] [] in
+  build Debug (one (SrcSimple 70000 1000 [unit100]) None) = Reject /\
+  build Release (one (SrcSimple 70000 1000 [unit100]) None) = Reject /\
+  build Release (one (SrcSimple 600 1000 [[(39900, 0); (40000, 0); (40000, 100); (39900, 100)]]%Q) None) = Reject /\
+  build Debug (one (SrcSimple 600 1000 [[(-20000, 0); (20000, 0); (20000, 100); (-20000, 100)]]%Q) None) = Reject /\
+  build Release (one (SrcSimple 600 1000 [[(-20000, 0); (20000, 0); (20000, 100); (-20000, 100)]]%Q) None) = Reject /\
+  build Debug (one (SrcSimple 600 1000 [[(0, -32100); (100, -32100); (100, -32000); (0, -32000)]]%Q) (Some 800%Q)) = Reject /\
+  build Release (one (SrcSimple 600 1000 [[(0, -32100); (100, -32100); (100, -32000); (0, -32000)]]%Q) (Some 800%Q)) = Reject /\
+  build Release (mk_src [notdef_src; SrcSimple 600 1000 [unit100]; SrcComposite 600 1000 [(1, (1, 0, 0, 1, 40000, 0)%Q)]]
+                        800 (-200) 0 None [] []) = Reject /\
+  build Debug (mk_src (notdef_src :: empty_glyphs false 65535) 800 (-200) 0 None [] []) = Panic.
+Proof. cbv zeta. repeat split; vm_compute; reflexivity. Qed.
+
+(* Never wrapped, outside the known class: if the values written through the remaining
+   saturating casts fit (composite boxes, hhea line metrics, kerning, anchors, vertical
+   origin, advance heights), a font emitted by either profile is faithful: advances,
+   outlines, component records or their decomposition, kerning, anchors, line metrics,
+   glyph count, vertical metrics. *)
+Theorem font_faithful_when_fits : forall (p : profile) (s : src) (f : font),
+  wfb s = true -> known_sites_fitb s = true -> build p s = Emit f -> faithful s f.
+Proof. intros p s f _ Hc H. eapply font_faithful; eauto. Qed.
 Print Assumptions font_faithful_when_fits.
 
 Definition sample_src : src :=
@@ -287,75 +361,37 @@ Definition sample_src : src :=
          800 (-200) 0 (Some 800%Q) [(-32768)%Q; (65533 # 2)%Q] [(32767, -32768)%Q].
 
 Example font_faithful_nonvacuous :
-  wfb sample_src = true /\ casts_fitb sample_src = true /\
+  wfb sample_src = true /\ known_sites_fitb sample_src = true /\
+  forallb comps_boundedb (s_glyphs sample_src) = true /\
   emitted (build Debug sample_src) = true /\ build Release sample_src = build Debug sample_src.
 Proof. repeat split; vm_compute; reflexivity. Qed.
 
-(* Checked limits: a source with more than 65535 glyphs is never turned into a font. *)
-Theorem font_checked_limits_reject : forall (p : profile) (s : src),
-  65535 < zlen (s_glyphs s) -> emitted (build p s) = false.
-Proof. exact too_many_glyphs_rejected. Qed.
-Print Assumptions font_checked_limits_reject.
-
-Example font_checked_limits_nonvacuous :
-  build Debug (mk_src (notdef_src :: empty_glyphs false 65535) 800 (-200) 0 None [] []) = Panic.
-Proof. vm_compute. reflexivity. Qed.
-
-(* The property itself, refuted on the model (and, by the harness, on the compiler):
-   a well-formed source whose advance width is 70000 is compiled by both profiles into
-   the same font, which is not faithful — the advance is 65535. *)
+(* The property itself, refuted on the model (and, by the harness, on the compiler) at
+   the sites that remain known findings: a well-formed source with a kerning value of
+   40000 is compiled by both profiles into the same font, which is not faithful — the
+   value is 32767. *)
 Theorem C19_never_wrapped_refuted : exists (s : src) (f : font),
   wfb s = true /\ build Debug s = Emit f /\ build Release s = Emit f /\ ~ faithful s f.
 Proof.
-  exists (mk_src [notdef_src; SrcSimple 70000 1000 [unit100]] 800 (-200) 0 None [] []).
+  exists (mk_src [notdef_src; SrcSimple 600 1000 [unit100]] 800 (-200) 0 None [40000%Q] []).
   eexists. split; [reflexivity|]. split; [vm_compute; reflexivity|]. split; [vm_compute; reflexivity|].
-  intros [_ [H _]]. vm_compute in H. discriminate.
+  intros [_ [_ [_ [_ [_ [H _]]]]]]. vm_compute in H. discriminate.
 Qed.
 Print Assumptions C19_never_wrapped_refuted.
 
 (* one witness per remaining saturating site of the font-level model *)
 Example C19_refuted_other_sites :
-  (* outline coordinate 40000, component offset 40000, kerning 40000, anchor 40000,
-     hhea ascender 40000, advance height 70000, vertical origin 40000 *)
+  (* composite box (offset 32668 + square 0..100), kerning 40000, anchor 40000, hhea
+     ascender 40000, advance height 70000, vertical origin 40000 *)
   let s := mk_src [ notdef_src;
-                    SrcSimple 600 70000 [[(39900, 0); (40000, 0); (40000, 100); (39900, 100)]]%Q;
-                    SrcSimple 600 1000 [[(-100, 0); (0, 0); (0, 100); (-100, 100)]]%Q;
-                    SrcComposite 600 1000 [(2, (1, 0, 0, 1, 40000, 0)%Q)] ]
+                    SrcSimple 600 70000 [unit100];
+                    SrcComposite 600 1000 [(1, (1, 0, 0, 1, 32668, 0)%Q)] ]
                   40000 (-200) 0 (Some 40000%Q) [40000%Q] [(40000, 0)%Q] in
-  project (fun f => dump_glyf (nth 1 (f_glyf f) GEmpty) ++ dump_glyf (nth 3 (f_glyf f) GEmpty)
+  project (fun f => dump_glyf (nth 2 (f_glyf f) GEmpty)
                     ++ f_kern f ++ [fst (nth 0 (f_anchor f) (0, 0)); f_asc f]
-                    ++ match f_vmtx f with Some v => [fst (nth 1 v (0, 0)); snd (nth 2 v (0, 0))] | None => [] end)
+                    ++ match f_vmtx f with Some v => [fst (nth 1 v (0, 0)); snd (nth 1 v (0, 0))] | None => [] end)
           (build Release s)
-  = Emit ([0; 1; 3; 4; 32767; 0; 32767; 100; 32767; 100; 32767; 0; 32767; 0; 32767; 100]
-          ++ [1; 1; 2; 32767; 0; 16384; 0; 0; 16384; 32667; 0; 32767; 100]
+  = Emit ([1; 1; 1; 32668; 0; 16384; 0; 0; 16384; 32668; 0; 32767; 100]
           ++ [32767] ++ [32767; 32767] ++ [65535; 32667])
   /\ build Debug s = build Release s.
 Proof. cbv zeta. split; vm_compute; reflexivity. Qed.
-
-(* Profile agreement, refuted: every coordinate of this source fits i16, yet the debug
-   build panics while the release build emits a font whose outline is wrong. *)
-Theorem C19_profiles_agree_refuted : exists (s : src) (f : font),
-  wfb s = true /\ casts_fitb s = true /\
-  build Debug s = Panic /\ build Release s = Emit f /\ ~ faithful s f.
-Proof.
-  exists (mk_src [notdef_src; SrcSimple 600 1000 [[(-20000, 0); (20000, 0); (20000, 100); (-20000, 100)]]%Q]
-                 800 (-200) 0 None [] []).
-  eexists. split; [reflexivity|]. split; [reflexivity|]. split; [vm_compute; reflexivity|].
-  split; [vm_compute; reflexivity|].
-  intros [H _]. cbn [f_glyf s_glyphs mk_src] in H.
-  inversion H as [|g0 o0 gl ol _ H1]; subst. inversion H1 as [|g1 o1 gl1 ol1 H2 _]; subst.
-  cbn in H2. destruct H2 as [so [E [D _]]]. inversion E; subst so. vm_compute in D. discriminate.
-Qed.
-Print Assumptions C19_profiles_agree_refuted.
-
-(* the other profile-dependent sites reached from a source *)
-Example C19_profiles_other_sites :
-  (* top side bearing: vertical origin 800, yMax -32000 *)
-  (let s := mk_src [notdef_src; SrcSimple 600 1000 [[(0, -32100); (100, -32100); (100, -32000); (0, -32000)]]%Q]
-                   800 (-200) 0 (Some 800%Q) [] [] in
-   casts_fitb s = true /\ build Debug s = Panic /\
-   project (fun f => match f_vmtx f with Some v => [snd (nth 1 v (0, 0))] | None => [] end) (build Release s)
-     = Emit [-32736]) /\
-  (* WidthClass 0 *)
-  (width_class Debug 0 = Panic /\ width_class Release 0 = Reject).
-Proof. cbv zeta. repeat split; vm_compute; reflexivity. Qed.
